@@ -6,7 +6,7 @@ META = dict(
           'deduplication on (model state, live-list order, symbol-cache size, key-list size, status word). In every state, for every object: finder on four '
           'addresses of its region, live-list content, malloc / free / get_app_pointer, example-based store+load of a data pointer and a function pointer, '
           'and a registration probe on a replayed copy.'),
-    assumptions=['an object whose last create failed is outside the window (allocation null, frees ignored, registration aborts, not findable, not listed); create / destroy on such an object are unconstrained and not explored further', 'a history ends at the first abort; a violated state is not expanded',
+    assumptions=['an object whose last create failed is outside the window (allocation null, frees ignored, registration aborts, not findable, not listed); create / destroy on such an object are unconstrained and not explored further', 'a refused operation (create on a created object, destroy / register outside the window) must leave the object unchanged and the history goes on; only an unexpected abort ends it; a violated state is not expanded',
                  'ending an owner of an earlier incarnation while the same function is registered again is the C13 known finding and is not reachable with one owner slot per object'],
 )
 
